@@ -215,7 +215,7 @@ fn oem_pass(img: &Image, truth: &Truth) -> Result<(), (String, String)> {
         Ok(())
     })();
     drop(root);
-    std::mem::forget(fs);
+    drop(fs);
     res
 }
 
@@ -297,7 +297,7 @@ pub fn run(args: &Args, rep: &mut Report) {
                 }
                 Ok(())
             })();
-            std::mem::forget(fs);
+            drop(fs);
             // a pure read session must not have written
             if dev.0.borrow().n_writes > 0 && res.is_ok() {
                 return Err(("read-session-wrote".to_string(), "device writes during a read-only walk".to_string()));
@@ -422,6 +422,6 @@ fn check_linux_image(img: &Image) -> Result<u64, String> {
     if lbl.map(|l| l.to_vec()) != Some(b"Test!      ".to_vec()) {
         return Err(format!("label {:?}", lbl));
     }
-    std::mem::forget(fs);
+    drop(fs);
     Ok(n)
 }
